@@ -165,3 +165,25 @@ Qed.
 Theorem her_batch_split n B : 0 <= n -> 0 <= B ->
   let v := nb_virtual n B in 0 <= v /\ 0 <= B - v /\ v + (B - v) = B.
 Proof. intros Hn HB. cbn zeta. pose proof (virtual_share_bounds n B Hn HB). lia. Qed.
+
+(* any B draws from the candidates: nb_virtual of them are relabelled, B - nb_virtual are real, every one of both parts is a sampleable
+   cell, nothing is dropped or duplicated, and the batch lists the real ones first *)
+Theorem her_split_spec b n B draws : 0 <= n -> 0 <= B -> Z.of_nat (length draws) = B ->
+  Forall (fun f => In f (valid_flat b)) draws ->
+  let '(vi, re) := her_split n B draws in
+  Z.of_nat (length vi) = nb_virtual n B /\ Z.of_nat (length re) = B - nb_virtual n B /\ vi ++ re = draws /\
+  Forall (fun f => In f (valid_flat b)) vi /\ Forall (fun f => In f (valid_flat b)) re /\
+  her_batch_cells n B draws = map (fun f => (false, f)) re ++ map (fun f => (true, f)) vi /\
+  (her_split_what, her_split_at, her_split_env_what, her_split_env_at, her_real_uses, her_virtual_uses, her_batch_order, her_candidates) = (1, 1, 1, 1, 1, 1, 1, 1) /\
+  her_candidates_size B = B.
+Proof.
+  intros Hn HB Hl Hall. unfold her_batch_cells, her_split. pose proof (virtual_share_bounds n B Hn HB) as Hv.
+  set (v := Z.to_nat (nb_virtual n B)).
+  assert (Hvl : (v <= length draws)%nat) by (unfold v; lia).
+  split; [rewrite firstn_length_le by exact Hvl; unfold v; lia|].
+  split; [rewrite skipn_length; unfold v; lia|].
+  split; [apply firstn_skipn|].
+  split; [rewrite <- (firstn_skipn v draws) in Hall; apply Forall_app in Hall; tauto|].
+  split; [rewrite <- (firstn_skipn v draws) in Hall; apply Forall_app in Hall; tauto|].
+  repeat split; reflexivity.
+Qed.
